@@ -74,11 +74,12 @@ theorem aux_sortMsgs_mem (l : List (Nat × Rpc)) (y : Nat × Rpc) : y ∈ sortMs
   · cases h
   · exact h
 
-theorem aux_chain_msgs (n : Nat) (s : Sys) (m : Nat) (hm : m < n) (msgs : List (Nat × Rpc)) :
+theorem aux_chain_msgs_gen (n : Nat) (P : Sys → Prop) (hP : ∀ x y, P x → MicroStep n x y → P y)
+    (s : Sys) (m : Nat) (hm : m < n) (msgs : List (Nat × Rpc)) :
     ∀ (st : NodeState) (acc : List (Nat × Rpc)) (s2 : Sys) (st1 : NodeState) (out1 : List (Nat × Rpc)),
-    MicroReach n s2 → Upd s m st acc s2 → (∀ x ∈ msgs, s.net ⟨m, x.1, x.2⟩) →
+    P s2 → Upd s m st acc s2 → (∀ x ∈ msgs, s.net ⟨m, x.1, x.2⟩) →
     handleMsgs (others n m) (majority n) st acc msgs = some (st1, out1) →
-    ∃ s3, MicroReach n s3 ∧ Upd s m st1 out1 s3 := by
+    ∃ s3, P s3 ∧ Upd s m st1 out1 s3 := by
   induction msgs with
   | nil =>
     intro st acc s2 st1 out1 hr hu _ hh
@@ -96,48 +97,50 @@ theorem aux_chain_msgs (n : Nat) (s : Sys) (m : Nat) (hm : m < n) (msgs : List (
         refine MicroStep.deliver s2 m sd rpc st' new hm ?_ ?_
         · exact (hu.net _).2 (Or.inl (hnet (sd, rpc) (by simp)))
         · rw [aux_upd_node s m st acc s2 hu]; exact heq
-      exact ih st' (acc ++ new) _ st1 out1 (.step hr hstep) (aux_upd_step s m st acc s2 hu st' new)
+      exact ih st' (acc ++ new) _ st1 out1 (hP _ _ hr hstep) (aux_upd_step s m st acc s2 hu st' new)
         (fun y hy => hnet y (List.mem_cons_of_mem _ hy)) hh
 
-/-- a macro step from a micro-reachable state is matched by micro steps -/
-theorem aux_macro_refines (n : Nat) (s : Sys) (hr : MicroReach n s) (m : Nat) (el hb : Bool)
+/-- a macro step is matched by micro steps; `P` is any predicate preserved by micro steps (reachability,
+    possibly together with a property that is stable under micro steps) -/
+theorem aux_macro_refines_gen (n : Nat) (P : Sys → Prop) (hP : ∀ x y, P x → MicroStep n x y → P y)
+    (s : Sys) (hr : P s) (hE : EInv n s) (m : Nat) (el hb : Bool)
     (reqs : List Nat) (msgs : List (Nat × Rpc)) (r : StepResult) (hm : m < n)
     (hnet : ∀ sm ∈ msgs, s.net ⟨m, sm.1, sm.2⟩)
     (hstep : raftStep (s.nodes m) (mkInput n m el hb reqs msgs) = some r) :
-    ∃ s3, MicroReach n s3 ∧ Upd s m r.st r.out.outbound s3 := by
+    ∃ s3, P s3 ∧ Upd s m r.st r.out.outbound s3 := by
   have hbase : Upd s m (s.nodes m) [] s := by
     refine ⟨fun x => ?_, fun e => by simp, fun c t h => h, fun hl => ?_⟩
     · by_cases hx : x = m
       · simp [hx]
       · simp [hx]
-    · exact (aux_einv_microReach n s hr).leaderRecorded m hl
+    · exact hE.leaderRecorded m hl
   unfold raftStep mkInput at hstep
   simp only at hstep
   split at hstep
   · cases hstep
   · next st1 out1 heq =>
-    obtain ⟨s1, hr1, hu1⟩ := aux_chain_msgs n s m hm (sortMsgs msgs) (s.nodes m) [] s st1 out1 hr hbase
+    obtain ⟨s1, hr1, hu1⟩ := aux_chain_msgs_gen n P hP s m hm (sortMsgs msgs) (s.nodes m) [] s st1 out1 hr hbase
       (fun x hx => hnet x (aux_sortMsgs_mem msgs x hx)) heq
     -- requests
     have hn1 := aux_upd_node s m st1 out1 s1 hu1
-    have hr2 : MicroReach n (s1.update m (handleRequests st1 [] reqs).1 []) := by
+    have hr2 : P (s1.update m (handleRequests st1 [] reqs).1 []) := by
       have := MicroStep.request s1 m reqs hm
       rw [hn1] at this
-      exact .step hr1 this
+      exact hP _ _ hr1 this
     have hu2 := aux_upd_step s m st1 out1 s1 hu1 (handleRequests st1 [] reqs).1 []
     rw [List.append_nil] at hu2
     generalize hst2 : (handleRequests st1 [] reqs).1 = st2 at hr2 hu2 hstep
     generalize hs2 : s1.update m st2 [] = s2 at hr2 hu2
     -- election timer
     have hn2 := aux_upd_node s m st2 out1 s2 hu2
-    have h3 : ∃ s3, MicroReach n s3 ∧
+    have h3 : ∃ s3, P s3 ∧
         Upd s m (electionTimer m (others n m) (majority n) el st2).1
           (out1 ++ (electionTimer m (others n m) (majority n) el st2).2) s3 := by
       cases el with
       | true =>
         have := MicroStep.timer s2 m hm
         rw [hn2] at this
-        exact ⟨_, .step hr2 this, aux_upd_step s m st2 out1 s2 hu2 _ _⟩
+        exact ⟨_, hP _ _ hr2 this, aux_upd_step s m st2 out1 s2 hu2 _ _⟩
       | false =>
         have : electionTimer m (others n m) (majority n) false st2 = (st2, []) := by
           simp [electionTimer]
@@ -148,23 +151,23 @@ theorem aux_macro_refines (n : Nat) (s : Sys) (hr : MicroReach n s) (m : Nat) (e
     generalize hout2 : (electionTimer m (others n m) (majority n) el st2).2 = out2 at hu3 hstep
     -- advance
     have hn3 := aux_upd_node s m st3 _ s3 hu3
-    have hr4 : MicroReach n (s3.update m (advanceCommit (others n m) (majority n) st3) []) := by
+    have hr4 : P (s3.update m (advanceCommit (others n m) (majority n) st3) []) := by
       have := MicroStep.advance s3 m hm
       rw [hn3] at this
-      exact .step hr3 this
+      exact hP _ _ hr3 this
     have hu4 := aux_upd_step s m st3 _ s3 hu3 (advanceCommit (others n m) (majority n) st3) []
     rw [List.append_nil] at hu4
     generalize hst4 : advanceCommit (others n m) (majority n) st3 = st4 at hr4 hu4 hstep
     generalize hs4 : s3.update m st4 [] = s4 at hr4 hu4
     -- heartbeat
     have hn4 := aux_upd_node s m st4 _ s4 hu4
-    have h5 : ∃ s5, MicroReach n s5 ∧
+    have h5 : ∃ s5, P s5 ∧
         Upd s m st4 (out1 ++ out2 ++ heartbeat m (others n m) hb st4) s5 := by
       cases hb with
       | true =>
         have := MicroStep.heartbeat s4 m hm
         rw [hn4] at this
-        exact ⟨_, .step hr4 this, aux_upd_step s m st4 _ s4 hu4 _ _⟩
+        exact ⟨_, hP _ _ hr4 this, aux_upd_step s m st4 _ s4 hu4 _ _⟩
       | false =>
         have : heartbeat m (others n m) false st4 = [] := by simp [heartbeat]
         rw [this]; simp only [List.append_nil]
@@ -172,15 +175,24 @@ theorem aux_macro_refines (n : Nat) (s : Sys) (hr : MicroReach n s) (m : Nat) (e
     obtain ⟨s5, hr5, hu5⟩ := h5
     -- emit
     have hn5 := aux_upd_node s m st4 _ s5 hu5
-    have hr6 : MicroReach n (s5.update m (emit st4).1 []) := by
+    have hr6 : P (s5.update m (emit st4).1 []) := by
       have := MicroStep.emit s5 m hm
       rw [hn5] at this
-      exact .step hr5 this
+      exact hP _ _ hr5 this
     have hu6 := aux_upd_step s m st4 _ s5 hu5 (emit st4).1 []
     rw [List.append_nil] at hu6
     injection hstep with hstep
     subst hstep
     exact ⟨_, hr6, hu6⟩
+
+/-- a macro step from a micro-reachable state is matched by micro steps -/
+theorem aux_macro_refines (n : Nat) (s : Sys) (hr : MicroReach n s) (m : Nat) (el hb : Bool)
+    (reqs : List Nat) (msgs : List (Nat × Rpc)) (r : StepResult) (hm : m < n)
+    (hnet : ∀ sm ∈ msgs, s.net ⟨m, sm.1, sm.2⟩)
+    (hstep : raftStep (s.nodes m) (mkInput n m el hb reqs msgs) = some r) :
+    ∃ s3, MicroReach n s3 ∧ Upd s m r.st r.out.outbound s3 :=
+  aux_macro_refines_gen n (MicroReach n) (fun _ _ h hs => .step h hs) s hr (aux_einv_microReach n s hr)
+    m el hb reqs msgs r hm hnet hstep
 
 /-- simulation relation between implementation executions and micro executions -/
 def Sim (s sm : Sys) : Prop :=
